@@ -78,6 +78,8 @@ def shards(tier, seed, scale=1.0):
     for s in range(16):
         out.append({'name': 'hyp-%d' % s, 'kind': 'hyp', 'seed': seed * 1000 + s, 'n': max(10, int(hyp_n * scale))})
     out.append({'name': 'textinv', 'kind': 'textinv', 'seed': seed})
+    for s in range(4):
+        out.append({'name': 'sets-%d' % s, 'kind': 'sets', 'shard': s, 'of': 4})
     return out
 
 
@@ -88,6 +90,8 @@ def run_shard(desc):
         return run_hyp(desc, PROPERTY, select_c02)
     if desc['kind'] == 'textinv':
         return run_textinv(desc)
+    if desc['kind'] == 'sets':
+        return run_sets(desc, PROPERTY, select_c02)
     raise HarnessError(desc['kind'])
 
 
@@ -150,6 +154,38 @@ def run_enum(desc, prop, selector):
     return out
 
 
+def run_sets(desc, prop, selector):
+    """Bracket expressions can never match a separator in path mode, whatever they contain: every POSIX class (plain,
+    negated, next to other items), ranges that span `/`, at the start, in the middle and at the end of a segment."""
+    out = Outcome()
+    out.exhaustive = True
+    armed = desc['armed']
+    s, S = desc['shard'], desc['of']
+    sets = []
+    for name in A.POSIX_NAMES:
+        for neg in (False, True):
+            sets.append(A.mkset(neg, ('p', name)))
+            sets.append(A.mkset(neg, ('c', '_'), ('p', name)))
+    sets += [A.mkset(False, ('r', '+', '0')), A.mkset(True, ('r', '0', '9')), A.mkset(False, ('r', '#', '~')), A.mkset(True, ('c', 'a')),
+             A.mkset(False, ('r', '.', '/')) if False else A.mkset(False, ('r', '-', '0')), A.mkset(False, ('c', '.'), ('p', 'punct'))]
+    shapes = [lambda x: (x,), lambda x: (A.lit('a'), x, A.lit('b')), lambda x: (A.lit('a'), x), lambda x: (x, A.lit('b')), lambda x: (A.STAR, x),
+              lambda x: (x, A.STAR), lambda x: (A.ext('@', (x,)),), lambda x: (A.lit('a'), A.ext('*', (x,)), A.lit('b'))]
+    paths = ['a/b', '/', 'a/', '/b', 'a.b', 'a_b', 'axb', 'a', 'b', '_', '.', 'a//b', '/a', 'a/b/', 'x/a.b', 'a-b', 'a+b', 'a b', 'ab', '.b', 'a.']
+    idx = 0
+    for st_ in sets:
+        for sh in shapes:
+            idx += 1
+            if idx % S != s:
+                continue
+            seq = A.merge_stars(sh(st_))
+            for segs in ((seq,), (A.lits('x'), seq), (seq, A.lits('b'))):
+                pp = A.PathPat(False, segs, False, 1)
+                for cfg in ({}, {'dot': True}, {'globstar': True, 'matchbase': True}):
+                    lang.eval_path(pp, cfg, paths, out, armed, prop, selector(cfg), entry=idx % 3, stream='sets')
+    out.sample({'stream': 'sets', 'pattern': 'a[[:punct:]]b', 'paths': paths[:6]})
+    return out
+
+
 def assemble_paths(pp, draw_int, alpha='ab.x'):
     """Paths built from the pattern's own segments: model-guided names per segment joined by 1-2 separators."""
     out = set()
@@ -186,7 +222,7 @@ def run_hyp(desc, prop, selector):
     out = Outcome()
     armed = desc['armed']
     big = desc['tier'] == 'thorough'
-    seg = A.st_seq(max_budget=5 if big else 4, max_depth=2, max_alts=3, alphabet='abAB.x1-_' + '*?[]()|!+@{}~\\', posix=False)
+    seg = A.st_seq(max_budget=5 if big else 4, max_depth=2, max_alts=3, alphabet='abAB.x1-_' + '*?[]()|!+@{}~\\', posix=True)
     pat = st.tuples(st.booleans(), st.lists(st.one_of(seg, seg, seg, st.just(A.GS), st.just(A.GSL)), min_size=1, max_size=4),
                     st.booleans(), st.sampled_from([1, 1, 2]))
 
